@@ -131,6 +131,16 @@ CLAIMED.update({
          "that the conversation inside the session is a behaviour of the same PgConn machine.",
          CONN_NOTE + " Trusted additionally: Go's crypto/tls, the attribution of decrypted plaintext to the server write that carried it.",
          CONN_TECH, "4 C11"),
+ "C15": ("TLC checks the sharing structure (PgShare: one type map per connection, global parameter map read-only) for "
+         "concurrent access, and generates every interleaving of sends and handler-gate releases of 2-3 concurrent "
+         "sessions; each schedule runs on one real server with sessions using the same names, different users and row "
+         "types; every connection's recording is validated by TLC against the single-connection specification (= what "
+         "the same traffic produces on a server serving it alone), and the type maps each connection encoded with must be "
+         "its own. Thorough tier additionally builds the harness with -race.",
+         "Trusted: TLC, the harness (gates, hook around Encode, per-connection projection). The race detector is an "
+         "auxiliary monitor outside the TLA+ family. Bounds: 2-3 connections, 2-3 message groups each.",
+         "TLA+ specs (PgShare, PgConn) + TLC model checking + TLC-generated interleavings replayed on concurrent real "
+         "connections + per-connection TLC trace validation (+ -race monitor in thorough)", "4 C15"),
 })
 NOT_YET = "machinery for this property is not built yet in this revision (planned, see DESIGN.md section 4)"
 
